@@ -638,6 +638,45 @@ fn sibling_cases() -> Vec<A> {
     out
 }
 
+/// chains of three nested elements over the five namespaces: every level either relies on the prefixes the root
+/// declares (h, m, s, f) or declares its namespace as the default on itself; the innermost element has a text child
+/// and a following sibling of the same kind (a binding that leaks or goes stale shows up in one of them)
+fn chain_cases() -> Vec<A> {
+    let name_of = |ns: &str| match ns {
+        "" => "div",
+        XHTML => "span",
+        MATHML => "math",
+        SVG => "svg",
+        _ => "x",
+    };
+    let mk = |ns: &str, own: bool| {
+        let e = A::el(ns, name_of(ns));
+        if own && !ns.is_empty() {
+            e.decl("", ns)
+        } else {
+            e
+        }
+    };
+    let mut out = vec![];
+    for n1 in NSS {
+        for n2 in NSS {
+            for n3 in NSS {
+                for own in 0..8u8 {
+                    if (n1.is_empty() && own & 1 != 0) || (n2.is_empty() && own & 2 != 0) || (n3.is_empty() && own & 4 != 0) {
+                        continue;
+                    }
+                    let l3 = mk(n3, own & 4 != 0).child(A::text("a<b"));
+                    let l2 = mk(n2, own & 2 != 0).child(l3.clone()).child(mk(n3, own & 4 != 0));
+                    let l1 = mk(n1, own & 1 != 0).child(l2);
+                    let root = A::el("", "body").decl("h", XHTML).decl("m", MATHML).decl("s", SVG).decl("f", FOREIGN).child(l1);
+                    out.push(root);
+                }
+            }
+        }
+    }
+    out
+}
+
 fn odd_cases() -> Vec<A> {
     vec![
         A::text("t"),
@@ -673,6 +712,9 @@ pub fn run(tier: Tier) -> i32 {
     for e in sibling_cases() {
         trees.push(A::doc(vec![e]));
     }
+    for e in chain_cases() {
+        trees.push(A::doc(vec![e]));
+    }
     trees.extend(odd_cases());
     // script / style are raw-text elements: element children cannot be represented in HTML at all
     fn raw_with_markup(a: &A) -> bool {
@@ -706,7 +748,7 @@ pub fn run(tier: Tier) -> i32 {
         return 2;
     }
     let cov = json!({
-        "rule": format!("(1) single elements: 11 names (br/BR/Br/p/P/span/div/pre/script/style/foo) x 5 namespaces (none, the real XHTML URI, MathML, SVG, foreign) x default / prefixed declaration, bare, with ordinary / boolean attributes, with children, with every text / attribute value of length <= {} over {{<,&,\",',>,U+00A0,x}}; (2) 4 parents x all ordered pairs of 19 children (SVG / MathML siblings with and without own declarations, void elements in every letter case, script / style / p with markup characters, foreign elements, comments, PIs with and without '>', text); (3) detached nodes of every kind and text directly under a document; x CDATA-section elements {{none, p, script}} x indentation {{off, on, on with p suppressed}}; distinct = distinct (tree, parameters)", tier.pick(2, 3)),
+        "rule": format!("(1) single elements: 11 names (br/BR/Br/p/P/span/div/pre/script/style/foo) x 5 namespaces (none, the real XHTML URI, MathML, SVG, foreign) x default / prefixed declaration, bare, with ordinary / boolean attributes, with children, with every text / attribute value of length <= {} over {{<,&,\",',>,U+00A0,x}}; (2) 4 parents x all ordered pairs of 19 children (SVG / MathML siblings with and without own declarations, void elements in every letter case, script / style / p with markup characters, foreign elements, comments, PIs with and without '>', text); (2b) every chain of three nested elements over the 5 namespaces, each level using a prefix declared on the root or declaring its namespace as default on itself, with a text child and a following sibling at the innermost level; (3) detached nodes of every kind and text directly under a document; x CDATA-section elements {{none, p, script}} x indentation {{off, on, on with p suppressed}}; distinct = distinct (tree, parameters)", tier.pick(2, 3)),
     });
     ctx.finish(stats, cov, vec!["HtmlScan (120 lines) is trusted; it knows script / style as raw-text elements".into()])
 }
